@@ -398,7 +398,7 @@ pub fn generate(run_seed: u64, quick: bool) -> Scenario {
 pub fn normalise_msg(msg: &str) -> String {
     let mut out = String::new();
     let mut last_digit = false;
-    for c in msg.chars().take(120) {
+    for c in msg.chars().take(64) {
         if c.is_ascii_digit() {
             if !last_digit {
                 out.push('#');
